@@ -33,7 +33,7 @@ def run(ctx):
     c01_bad_cases = set()
     for a in an:
         for r in a["impl_fail_cases"]: c01_bad_cases.add(r["case"].split("\n", 1)[0] + r["case"])
-    for rp in sorted(glob.glob(os.path.join(ctx.work, "acyclic-*", "report.json"))):
+    for rp in sorted(glob.glob(os.path.join(ctx.work, "acyclic-*", "report.json")) + glob.glob(os.path.join(ctx.work, "pjchain-*", "report.json"))):
         for f in json.load(open(rp))["oracle_failures"]:
             if not f["sig"].startswith("C03"): continue
             res.oracle_failures.append(f)
